@@ -507,6 +507,9 @@ pub const PROBES: &[&str] = &[
     "p = A[x: 1], f = #'int { p = A[x: ~], p.x }, 5 f",
     // a dispatch branch that ends in a tail call
     "g = #(A | B) { | =A => 7 | =B => A ^ }, q = B g, q",
+    // repeated binders through a multi-variant nested pattern / driving the complement
+    "f = #[(A['int] | A['bin]), 'int] { =[A[h], h] => h | 99 }, [[A[1], 2] f, [A[1], 1] f, [A[0x01], 1] f]",
+    "'l = Nil | Cons['int, ^]\nf = #['l, 'int] { | =[Cons[h, t], h] => 1 | =[Cons[a, b], c] => 2 | 3 }, [[Cons[1, Nil], 2] f, [Cons[1, Nil], 1] f, [Nil, 1] f]",
     // a pin next to a binder of the same name
     "x = 1, [2, 1] =[x, &x], x",
     "x = 1, [2, 2] =[x, &x]",
